@@ -67,4 +67,12 @@ PROPS = {
         need_events=["wellframed_accepted_equal", "ref_misframed", "groups_direct"],
         assumptions=TRUST + ["a well-framed body may be rejected only for an Address payload that is invalid (shorter than 3 bytes, family 0/65535, IPv4/IPv6 family with the wrong size); a missing padding after the final AVP is a don't-care"],
     ),
+    "C05": dict(
+        level="exploration",
+        rule="sequences of 1..8 numbered messages with body sizes from {0,12,100,1000,1004,1008,1024,1028,4076,4096,65000} (below/at/above the 1 KiB pooled buffer and the 4 KiB bufio buffer) are concatenated and delivered to ReadMessage over a plain fragmenting reader (byte-exact consumption counter), over bufio, and to a real connection (diam.NewConn over the in-memory transport; thorough: loopback TCP): every 1-cut and 2-cut and every truncation point for short streams, random cut sets incl. all-1-byte reads and random truncation for long ones, and every declared length 0..19 followed by more data. distinct_nontrivial counts distinct (stream shape, leading body sizes / message count / fragment count / declared length) classes.",
+        runs=dict(quick=[plain("TestC05", 8), race("TestC05", 2, env={"VERIF_C05_RACE": 1})], thorough=[plain("TestC05", 16, 3000), race("TestC05", 4, 3000)]),
+        floor=dict(quick=3000, thorough=100000),
+        need_events=["streams_checked", "short_lengths_rejected", "conn_streams"],
+        assumptions=TRUST + ["messages are drawn from classes C01 holds on (one OctetString or Unsigned32 AVP of the generated dictionary), so re-serialisation of a returned message identifies it"],
+    ),
 }
